@@ -1,8 +1,25 @@
 (* C20 proofs: exec = step; the invariant; the three guarantees at state level and at trace level. *)
 From MJ Require Import Common.Base C20.Model C20.Spec.
 
-Ltac simp := cbn [flag reqs cached ph nlk creator_calls clears notifies with_ph with_flag with_nlk with_cached
+Ltac simp := cbn [flag reqs cached ph nlk cpois npois creator_calls clears notifies with_ph with_flag with_nlk with_cached
+                  poison_cache poison_notifier unwind_acq panicked
                   count_request count_notify count_creator count_clear lab obs ev gen born] in *.
+
+Lemma creator_unwind_cases s t :
+  creator_unwind s t = s \/ (exists r0 b w, ph s = Creating t r0 b w /\ creator_unwind s t = unwind_acq s).
+Proof.
+  unfold creator_unwind. destruct (ph s); auto. destruct (Z.eqb_spec t t0); [subst; right; eauto | auto].
+Qed.
+(* case analysis on every [creator_unwind] in the goal *)
+Ltac cu :=
+  repeat match goal with
+  | |- context [creator_unwind ?s ?t] =>
+      let E := fresh "E" in let Hc := fresh "Hcre" in
+      destruct (creator_unwind_cases s t) as [E | (? & ? & ? & Hc & E)]; rewrite E in *; clear E
+  | _ : context [creator_unwind ?s ?t] |- _ =>
+      let E := fresh "E" in let Hc := fresh "Hcre" in
+      destruct (creator_unwind_cases s t) as [E | (? & ? & ? & Hc & E)]; rewrite E in *; clear E
+  end.
 
 (* ------------------------------------------------------------------------------------------ *)
 (* exec is the step relation                                                                    *)
@@ -86,16 +103,19 @@ Qed.
 Definition quiescent_ok (s : st) : Prop :=
   flag s = false -> forall e, cached s = Some e -> born e = reqs s.
 
+(* as long as the cache mutex is not poisoned ... (a panic leaves the flag cleared and the old
+   environment cached: from then on it is the poison that keeps it from being handed out, Inv3) *)
 Definition Inv (s : st) : Prop :=
   (forall e, cached s = Some e -> born e <= reqs s) /\
-  match ph s with
-  | Idle => quiescent_ok s
-  | Locked _ r0 => quiescent_ok s /\ r0 <= reqs s /\ cached s <> None
-  | Holding _ r0 => quiescent_ok s /\ r0 <= reqs s /\ exists e, cached s = Some e /\ r0 <= born e
-  | Decided _ r0 _ | PreCreate _ r0 _ | Failing _ r0 => r0 <= reqs s
-  | Cleared _ r0 _ => r0 <= reqs s /\ cached s <> None
-  | Creating _ r0 b _ => b <= reqs s /\ (flag s = false -> b = reqs s) /\ r0 <= b
-  end.
+  (cpois s = false ->
+   match ph s with
+   | Idle => quiescent_ok s
+   | Locked _ r0 => quiescent_ok s /\ r0 <= reqs s /\ cached s <> None
+   | Holding _ r0 => quiescent_ok s /\ r0 <= reqs s /\ exists e, cached s = Some e /\ r0 <= born e
+   | Decided _ r0 _ | PreCreate _ r0 _ | Failing _ r0 => r0 <= reqs s
+   | Cleared _ r0 _ => r0 <= reqs s /\ cached s <> None
+   | Creating _ r0 b _ => b <= reqs s /\ (flag s = false -> b = reqs s) /\ r0 <= b
+   end).
 
 Lemma inv_init : Inv init.
 Proof. unfold Inv, quiescent_ok; cbn. split; intros; discriminate. Qed.
@@ -108,66 +128,82 @@ Definition Inv2 (s : st) : Prop :=
   | _ => True
   end.
 
+(* once the cache mutex is poisoned nobody holds it any more, and nobody ever will *)
+Definition Inv3 (s : st) : Prop := cpois s = true -> ph s = Idle.
+
 Lemma inv2_init : Inv2 init.
 Proof. exact I. Qed.
+Lemma inv3_init : Inv3 init.
+Proof. intros H; discriminate. Qed.
+
+Lemma inv3_step c s e s' : Inv3 s -> step c s e s' -> Inv3 s'.
+Proof.
+  intros Hi Hs; unfold Inv3 in *; destruct Hs; cu; simp; try reflexivity; try assumption; intros Hp;
+    try (specialize (Hi Hp); congruence); try reflexivity; try discriminate.
+Qed.
 
 Lemma inv2_step c s e s' : Inv2 s -> step c s e s' -> Inv2 s'.
 Proof.
-  intros Hi Hs; destruct Hs; unfold Inv2 in *; simp;
+  intros Hi Hs; destruct Hs; cu; unfold Inv2 in *; simp;
     repeat match goal with H : nlk _ = _ |- _ => rewrite H in *; clear H end; simp;
     try exact I.
   all: try (destruct (nlk s) as [|?|? []]; try exact I; destruct Hi as (Hf & r & Hp); try congruence).
   all: try (split; [assumption | eauto]).
 Qed.
 
-Lemma inv_step c s e s' : restore c = true -> Inv s -> Inv2 s -> step c s e s' -> Inv s'.
+Lemma inv_step c s e s' : restore c = true -> Inv s -> Inv2 s -> Inv3 s -> step c s e s' -> Inv s'.
 Proof.
-  intros Hfix [Hle Hq] Hi2 Hs.
-  destruct Hs; unfold Inv, quiescent_ok in *; simp;
+  intros Hfix [Hle Hq] Hi2 Hi3 Hs. unfold Inv3 in Hi3.
+  assert (Hnp : ph s <> Idle -> cpois s = false) by (destruct (cpois s); [intros Hn; elim Hn; auto | reflexivity]).
+  destruct Hs; cu; unfold Inv, quiescent_ok in *; simp;
+    try solve [split; [assumption | intros; discriminate]];
+    (split; [| intros Hcp; specialize (Hq Hcp)]);
     repeat match goal with H : ph _ = _ |- _ => rewrite H in *; clear H end;
-    try solve [split; assumption]; try solve [split; [assumption | lia]]; try solve [split; [assumption | tauto]];
-    try congruence.
-  - (* request: flag set *)
-    split; [intros e He; specialize (Hle e He); lia|].
-    destruct (ph s);
+    try assumption; try lia; try tauto; try congruence.
+  - (* request: flag set *) intros e He; specialize (Hle e He); lia.
+  - destruct (ph s);
       repeat match goal with H : _ /\ _ |- _ => destruct H | H : exists _, _ |- _ => destruct H end;
       repeat split; try lia; try (intros; discriminate); eauto.
-  - (* lock, cache full *) split; [assumption|]. repeat split; try assumption; try lia. congruence.
-  - (* keep *) split; [assumption|]. destruct Hq as (Hq & Hr & Hc). repeat split; try assumption.
+  - (* lock, cache full *) repeat split; try assumption; try lia. congruence.
+  - (* keep *) destruct Hq as (Hq & Hr & Hc). repeat split; try assumption.
     match goal with Hf : flag s = false, Hc : cached s = Some ?e |- _ =>
       exists e; split; [assumption|]; rewrite (Hq Hf e Hc); assumption end.
   - (* freshness callback says fresh: the flag is still clear, the mutex was held all the time *)
-    split; [assumption|]. destruct Hq as (Hq & Hr & Hc).
+    destruct Hq as (Hq & Hr & Hc).
     unfold Inv2 in Hi2. match goal with Hn : nlk s = NFresh _ |- _ => rewrite Hn in Hi2 end. destruct Hi2 as (Hf & _).
     repeat split; try assumption.
     match goal with Hc : cached s = Some ?e |- _ => exists e; split; [assumption|]; rewrite (Hq Hf e Hc); assumption end.
-  - (* flag reset, cache full *) split; [assumption|]. split; [assumption | congruence].
-  - (* fast reload: clear *) destruct Hq as (Hr & Hc).
-    split; [intros e' He'; inversion He'; subst; cbn; lia|].
-    repeat split; try assumption.
+  - (* flag reset, cache full *) split; [assumption | congruence].
+  - (* fast reload: clear *) intros e' He'; inversion He'; subst; cbn; lia.
+  - destruct Hq as (Hr & Hc). repeat split; try assumption.
     + intros _ e' He'; inversion He'; subst; reflexivity.
     + eexists; split; [reflexivity | cbn; assumption].
-  - (* creator ok *) destruct Hq as (Hb & Hf & Hr).
-    split; [intros e' He'; inversion He'; subst; cbn; lia|].
-    repeat split; try lia.
+  - (* creator ok *) intros e' He'; inversion He'; subst; cbn.
+    assert (Hcp : cpois s = false) by (apply Hnp; discriminate). specialize (Hq Hcp). lia.
+  - destruct Hq as (Hb & Hf & Hr). repeat split; try lia.
     + intros Hfl e' He'; inversion He'; subst; cbn. auto.
     + eexists; split; [reflexivity | cbn; assumption].
 Qed.
 
-Definition Invs (s : st) : Prop := Inv s /\ Inv2 s.
+Definition Invs (s : st) : Prop := Inv s /\ Inv2 s /\ Inv3 s.
 Lemma invs_init : Invs init.
-Proof. split; [exact inv_init | exact inv2_init]. Qed.
+Proof. split; [exact inv_init | split; [exact inv2_init | exact inv3_init]]. Qed.
 Lemma invs_step c s e s' : restore c = true -> Invs s -> step c s e s' -> Invs s'.
-Proof. intros Hfix [H1 H2] Hs. split; [eapply inv_step; eassumption | eapply inv2_step; eassumption]. Qed.
+Proof.
+  intros Hfix (H1 & H2 & H3) Hs.
+  split; [eapply inv_step; eassumption | split; [eapply inv2_step; eassumption | eapply inv3_step; eassumption]].
+Qed.
 Lemma invs_run c : restore c = true -> forall tr s s', Invs s -> run c s tr s' -> Invs s'.
 Proof.
   intros Hfix tr; induction tr as [|e tr IH]; intros s s' Hi Hr; inversion Hr; subst; [assumption|].
   eapply IH; [eapply invs_step; eassumption | eassumption].
 Qed.
-
 (* ------------------------------------------------------------------------------------------ *)
 (* no lost request                                                                              *)
 (* ------------------------------------------------------------------------------------------ *)
+Lemma inv3_false s : Inv3 s -> ph s <> Idle -> cpois s = false.
+Proof. unfold Inv3. destruct (cpois s); [intros H Hn; elim Hn; auto | reflexivity]. Qed.
+
 Definition owner_r0 (p : phase) : option (Z * Z) :=
   match p with
   | Idle => None
@@ -177,7 +213,7 @@ Lemma owner_none p : owner_r0 p = None -> p = Idle.
 Proof. destruct p; cbn; congruence. Qed.
 
 Definition is_cache (l : label) : bool := match l with LAcqCache _ => true | _ => false end.
-Definition is_set (e : event) : bool := match lab e with LReqSet _ => true | _ => false end.
+Definition is_set (e : event) : bool := match lab e with LReqSet _ => negb (panicked e) | _ => false end.
 Definition count_sets (tr : list event) : Z := lenZ (filter is_set tr).
 
 (* state level: the environment handed out is at least as new as every request completed when
@@ -186,11 +222,13 @@ Lemma handed_out_fresh c s e s' t r0 :
   restore c = true -> Invs s -> step c s e s' -> ph s' = Holding t r0 ->
   exists en, cached s' = Some en /\ r0 <= born en.
 Proof.
-  intros Hfix Hi Hs Hp. pose proof (invs_step _ _ _ _ Hfix Hi Hs) as [[_ Hq] _]. rewrite Hp in Hq. tauto.
+  intros Hfix Hi Hs Hp. pose proof (invs_step _ _ _ _ Hfix Hi Hs) as ([_ Hq] & _ & H3).
+  assert (Hcp : cpois s' = false) by (apply inv3_false; [assumption | congruence]).
+  specialize (Hq Hcp). rewrite Hp in Hq. tauto.
 Qed.
 
 Lemma reqs_step c s e s' : step c s e s' -> reqs s' = reqs s + (if is_set e then 1 else 0).
-Proof. intros H; destruct H; unfold is_set; simp; lia. Qed.
+Proof. intros H; destruct H; cu; unfold is_set; simp; cbn [negb]; lia. Qed.
 
 Lemma reqs_run c : forall tr s s', run c s tr s' -> reqs s' = reqs s + count_sets tr.
 Proof.
@@ -203,7 +241,7 @@ Qed.
 Lemma keep_owner c s e s' : step c s e s' -> is_cache (lab e) = false ->
   owner_r0 (ph s') = owner_r0 (ph s) \/ ph s' = Idle.
 Proof.
-  intros H Hc; destruct H; simp; cbn [is_cache] in Hc; try discriminate;
+  intros H Hc; destruct H; cu; simp; cbn [is_cache] in Hc; try discriminate;
     repeat match goal with H : ph _ = _ |- _ => rewrite H end; cbn [owner_r0]; auto.
 Qed.
 
@@ -220,7 +258,7 @@ Qed.
 Lemma hand_out c s e s' en : step c s e s' -> obs e = REnv en -> is_drop (lab e) = false ->
   exists r0, ph s' = Holding (tid_of (lab e)) r0 /\ cached s' = Some en.
 Proof.
-  intros H Ho Hd; destruct H; simp; cbn [is_drop] in *; try discriminate; inversion Ho; subst;
+  intros H Ho Hd; destruct H; cu; simp; cbn [is_drop] in *; try discriminate; inversion Ho; subst;
     cbn [tid_of]; eauto.
 Qed.
 
@@ -244,7 +282,9 @@ Proof.
   destruct (hand_out _ _ _ _ _ Hstep Hobs Hnd) as (r0 & Hph & Hc).
   rewrite Hph, Ho2 in Hown. cbn [owner_r0] in Hown. destruct Hown as [E|E]; [|discriminate].
   inversion E; subst. split; [reflexivity|].
-  destruct Hinv_end as [[_ Hq] _]. rewrite Hph in Hq. destruct Hq as (_ & _ & en' & Hc' & Hb).
+  destruct Hinv_end as ([_ Hq] & _ & H3).
+  assert (Hcp : cpois s = false) by (apply inv3_false; [assumption | congruence]).
+  specialize (Hq Hcp). rewrite Hph in Hq. destruct Hq as (_ & _ & en' & Hc' & Hb).
   rewrite Hc in Hc'. inversion Hc'; subst. assumption.
 Qed.
 
@@ -261,8 +301,9 @@ Lemma nl_sim c s e s' x : restore c = true -> Invs s -> nlR s x -> step c s e s'
   exists x', nl_step x e = Some x' /\ nlR s' x'.
 Proof.
   intros Hfix Hi (Hn & Hm & Hp & Ho) Hs.
-  pose proof (invs_step _ _ _ _ Hfix Hi Hs) as [[_ Hi'] _].
-  destruct Hs; unfold nl_step, nl_lab; simp; cbn [tid_of is_drop];
+  assert (Hi' : forall t r0, ph s' = Holding t r0 -> exists en, cached s' = Some en /\ r0 <= born en)
+    by (intros; eapply handed_out_fresh; eassumption).
+  destruct Hs; cu; unfold nl_step, nl_lab; simp; cbn [tid_of is_drop];
     try (match goal with H : ph s = _ |- _ => rewrite H in Ho; cbn [owner_r0] in Ho end).
   all: try congruence.
   all: try solve [exists x; split; [reflexivity|]; unfold nlR; simp;
@@ -282,16 +323,16 @@ Proof.
   - (* lock some *) eexists; split; [reflexivity|]. unfold nlR; simp; cbn [nset pend retmax need owner_r0].
     repeat split; try assumption. intros t' r0 E; inversion E; subst. exists (retmax x). cbn [lookup]. rewrite Z.eqb_refl. split; [reflexivity | lia].
   - (* keep *) destruct (Ho t r0 eq_refl) as (r & Hl & Hr). rewrite Hl.
-    destruct Hi' as (_ & _ & e' & Hc & Hb). match goal with Hx : cached s = Some e |- _ => rewrite Hx in Hc end. inversion Hc; subst e'.
+    destruct (Hi' t r0 eq_refl) as (e' & Hc & Hb). match goal with Hx : cached s = Some e |- _ => rewrite Hx in Hc end. inversion Hc; subst e'.
     replace (r <=? born e) with true by lia. exists x; split; [reflexivity|]. unfold nlR; simp; cbn [owner_r0]. auto.
   - (* callback says fresh *) destruct (Ho t r0 eq_refl) as (r & Hl & Hr). rewrite Hl.
-    destruct Hi' as (_ & _ & e' & Hc & Hb). match goal with Hx : cached s = Some e |- _ => rewrite Hx in Hc end. inversion Hc; subst e'.
+    destruct (Hi' t r0 eq_refl) as (e' & Hc & Hb). match goal with Hx : cached s = Some e |- _ => rewrite Hx in Hc end. inversion Hc; subst e'.
     replace (r <=? born e) with true by lia. exists x; split; [reflexivity|]. unfold nlR; simp; cbn [owner_r0]. auto.
   - (* fast clear *) destruct (Ho t r0 eq_refl) as (r & Hl & Hr). rewrite Hl.
-    destruct Hi' as (_ & _ & e' & Hc & Hb). inversion Hc; subst e'. cbn [born] in *.
+    destruct (Hi' t r0 eq_refl) as (e' & Hc & Hb). inversion Hc; subst e'. cbn [born] in *.
     replace (r <=? reqs s) with true by lia. exists x; split; [reflexivity|]. unfold nlR; simp; cbn [owner_r0]. auto.
   - (* creator ok *) destruct (Ho t r0 eq_refl) as (r & Hl & Hr). rewrite Hl.
-    destruct Hi' as (_ & _ & e' & Hc & Hb'). inversion Hc; subst e'. cbn [born] in *.
+    destruct (Hi' t r0 eq_refl) as (e' & Hc & Hb'). inversion Hc; subst e'. cbn [born] in *.
     replace (r <=? b) with true by lia. exists x; split; [reflexivity|]. unfold nlR; simp; cbn [owner_r0]. auto.
 Qed.
 
@@ -312,7 +353,7 @@ Lemma guard_excludes_proof c s e s' t r0 : step c s e s' -> ph s = Holding t r0 
   cached s' = cached s /\ creator_calls s' = creator_calls s /\ clears s' = clears s /\
   (ph s' = Holding t r0 \/ (lab e = LDrop t /\ ph s' = Idle)).
 Proof.
-  intros H Hp; destruct H; simp; try congruence; auto 10.
+  intros H Hp; destruct H; cu; simp; try congruence; auto 10.
   rewrite Hp in H. inversion H; subst. auto 10.
 Qed.
 
@@ -326,12 +367,12 @@ Lemma g_sim c s e s' h : gR s h -> step c s e s' -> exists h', g_step h e = Some
 Proof.
   intros Hg Hs. destruct h as [[ht hen]|]; cbn [gR] in Hg.
   - destruct Hg as ((hr & Hp) & Hc).
-    destruct Hs; unfold g_step; simp; cbn [tid_of]; try congruence;
+    destruct Hs; cu; unfold g_step; simp; cbn [tid_of]; try congruence;
       try (eexists; split; [reflexivity|]; cbn [gR]; simp; split; [eexists; eassumption | assumption]).
     rewrite Hp in H; inversion H; subst. rewrite Hc in H0; inversion H0; subst.
     rewrite Z.eqb_refl. replace (env_eqb e e) with true by (symmetry; apply env_eqb_eq; reflexivity).
     eexists; split; [reflexivity|]. cbn [gR]; simp. intros; discriminate.
-  - destruct Hs; unfold g_step; simp; cbn [tid_of];
+  - destruct Hs; cu; unfold g_step; simp; cbn [tid_of];
       try (eexists; split; [reflexivity|]; cbn [gR]; simp);
       try solve [assumption | intros; discriminate | intros ? ?; rewrite H; discriminate
                 | split; [eexists; reflexivity | assumption]
@@ -355,9 +396,9 @@ Proof. intros H. eapply g_sound; [|exact H]. cbn. intros; discriminate. Qed.
 Lemma notifier_excludes_proof c s e s' h : step c s e s' -> nlk_holder (nlk s) = Some h ->
   (flag s' = flag s /\ reqs s' = reqs s /\ nlk s' = nlk s) \/
   (flag s' = flag s /\ reqs s' = reqs s /\ tid_of (lab e) = h /\
-   (lab e = LOnCbEnd h \/ exists a, lab e = LFreshEnd h a)).
+   ((exists p, lab e = LOnCbEnd h p) \/ exists a, lab e = LFreshEnd h a)).
 Proof.
-  intros H Hh; destruct H; simp;
+  intros H Hh; destruct H; cu; simp;
     repeat match goal with H : nlk _ = _ |- _ => rewrite H in Hh; clear H end;
     cbn [nlk_holder] in Hh; try discriminate; try (inversion Hh; subst); cbn [tid_of];
     try solve [left; repeat split; reflexivity]; right; repeat split; eauto.
@@ -365,8 +406,9 @@ Qed.
 
 (* a request that is not blocked takes effect *)
 Lemma request_takes_effect_proof c s e s' t : step c s e s' -> lab e = LReqSet t ->
-  nlk s = NFree /\ flag s' = true /\ reqs s' = reqs s + 1.
-Proof. intros H Hl; destruct H; simp; try discriminate. auto. Qed.
+  nlk s = NFree /\
+  ((npois s = false /\ obs e = RNone /\ flag s' = true /\ reqs s' = reqs s + 1) \/ (npois s = true /\ obs e = RPanic)).
+Proof. intros H Hl; destruct H; simp; try discriminate; auto 8. Qed.
 
 (* a blocked attempt changes nothing, and only happens while another thread is inside a callback *)
 Lemma blocked_is_stutter_proof c s e s' t : step c s e s' -> lab e = LBlocked t ->
@@ -380,7 +422,7 @@ Lemma no_spurious_rebuild_proof c s e s' :
   step c s e s' -> creator_calls s' <> creator_calls s \/ clears s' <> clears s ->
   exists t r0 w, ph s = PreCreate t r0 w \/ ph s = Cleared t r0 w.
 Proof.
-  intros H Hd; destruct H; simp; try (exfalso; lia); eauto.
+  intros H Hd; destruct H; cu; simp; try (exfalso; lia); eauto.
 Qed.
 
 (* the reason recorded when an acquire decides to reload is true at that moment *)
@@ -389,18 +431,18 @@ Lemma decided_justified_proof c s e s' t r0 w :
   match w with
   | WhyEmpty => cached s = None
   | WhyFlag => flag s = true
-  | WhyFresh => lab e = LFreshEnd t true \/ (lab e = LOnCbEnd t /\ nlk s = NOnCb t true)
+  | WhyFresh => lab e = LFreshEnd t CbTrue \/ (lab e = LOnCbEnd t false /\ nlk s = NOnCb t true)
   end.
 Proof.
-  intros H Hp Hn; destruct H; simp; try congruence;
+  intros H Hp Hn; destruct H; cu; simp; try congruence;
     try (inversion Hp; subst; assumption); try (inversion Hp; subst; auto).
 Qed.
 
 (* the on-should-reload callback is only entered from should_reload after the freshness callback said "stale" *)
 Lemma oncb_from_check_justified_proof c s e s' t :
-  step c s e s' -> nlk s' = NOnCb t true -> nlk s <> NOnCb t true -> lab e = LFreshEnd t true.
+  step c s e s' -> nlk s' = NOnCb t true -> nlk s <> NOnCb t true -> lab e = LFreshEnd t CbTrue.
 Proof.
-  intros H Hp Hn; destruct H; simp; try congruence; try (inversion Hp; subst; reflexivity).
+  intros H Hp Hn; destruct H; cu; simp; try congruence; try (inversion Hp; subst; reflexivity).
 Qed.
 
 (* a reload is only ever started from a decision *)
@@ -408,7 +450,7 @@ Lemma precreate_from_decision c s e s' t r0 w :
   step c s e s' -> (ph s' = PreCreate t r0 w \/ ph s' = Cleared t r0 w) ->
   ph s = PreCreate t r0 w \/ ph s = Cleared t r0 w \/ ph s = Decided t r0 w.
 Proof.
-  intros H Hp; destruct H; simp; destruct Hp as [Hp|Hp]; try congruence;
+  intros H Hp; destruct H; cu; simp; destruct Hp as [Hp|Hp]; try congruence;
     try (inversion Hp; subst; tauto); tauto.
 Qed.
 
@@ -423,7 +465,7 @@ Definition spR (s : st) (x : sp) : Prop :=
 Lemma sp_sim c s e s' x : Inv2 s -> spR s x -> step c s e s' -> exists x', sp_step x e = Some x' /\ spR s' x'.
 Proof.
   intros Hi2 (Hp & Hh & Hj & Hk) Hs. unfold Inv2 in Hi2.
-  destruct Hs; unfold sp_step; simp;
+  destruct Hs; cu; unfold sp_step; simp;
     try (match goal with H : nlk s = _ |- _ => rewrite H in Hk, Hi2 end);
     try (match goal with H : ph s = _ |- _ => rewrite H in Hj end);
     try rewrite Hj; try rewrite Hk;
@@ -453,6 +495,55 @@ Lemma spec_holds_proof c tr s : restore c = true -> run c init tr s -> spec_ok t
 Proof.
   intros Hfix H. unfold spec_ok.
   rewrite (no_lost_trace_proof _ _ _ Hfix H), (guard_trace_proof _ _ _ H), (no_spurious_trace_proof _ _ _ H). reflexivity.
+Qed.
+
+
+(* ------------------------------------------------------------------------------------------ *)
+(* panics and poisoning                                                                         *)
+(* ------------------------------------------------------------------------------------------ *)
+(* a panicking creator / callback inside acquire_env poisons the cache mutex *)
+Lemma panic_poisons_proof c s e s' t :
+  step c s e s' -> (lab e = LCrePanic t \/ lab e = LFreshEnd t CbPanic) -> cpois s' = true /\ ph s' = Idle /\ obs e = RPanic.
+Proof. intros H Hl; destruct H; cu; simp; destruct Hl as [Hl|Hl]; try discriminate; auto. Qed.
+
+(* a panic does not restore the reload flag *)
+Lemma panic_keeps_flag_proof c s e s' : step c s e s' -> obs e = RPanic -> flag s' = flag s /\ cached s' = cached s /\ reqs s' = reqs s.
+Proof. intros H Ho; destruct H; cu; simp; try discriminate; auto. Qed.
+
+(* once the cache mutex is poisoned it stays poisoned and no step hands out an environment *)
+Lemma poisoned_step c s e s' : Inv3 s -> cpois s = true -> step c s e s' ->
+  cpois s' = true /\ forall en, obs e <> REnv en.
+Proof.
+  intros Hi Hp Hs. pose proof (Hi Hp) as Hidle.
+  destruct Hs; cu; simp; try congruence; (split; [assumption || reflexivity | intros en; discriminate]).
+Qed.
+
+Lemma poisoned_run c : forall tr s s', Inv3 s -> cpois s = true -> run c s tr s' ->
+  forall e en, In e tr -> obs e <> REnv en.
+Proof.
+  induction tr as [|e tr IH]; intros s s' Hi Hp Hrun x en Hin; [destruct Hin|].
+  inversion Hrun as [|? ? s1 ? ? H3 H5]; subst.
+  destruct (poisoned_step _ _ _ _ Hi Hp H3) as [Hp' Hne].
+  destruct Hin as [<-|Hin]; [apply Hne|].
+  eapply IH; [eapply inv3_step; eassumption | exact Hp' | exact H5 | exact Hin].
+Qed.
+
+Lemma inv3_run c : forall tr s s', Inv3 s -> run c s tr s' -> Inv3 s'.
+Proof.
+  induction tr as [|e tr IH]; intros s s' Hi Hr; inversion Hr; subst; [assumption|].
+  eapply IH; [eapply inv3_step; eassumption | eassumption].
+Qed.
+
+(* after a creator (or freshness callback) panicked inside acquire_env, no environment - in particular
+   no stale one - is ever handed out again, whatever the threads do *)
+Lemma no_env_after_panic_proof c tr1 p tr2 s t :
+  run c init (tr1 ++ p :: tr2) s -> (lab p = LCrePanic t \/ lab p = LFreshEnd t CbPanic) ->
+  forall e en, In e tr2 -> obs e <> REnv en.
+Proof.
+  intros Hrun Hl. apply run_app in Hrun as (s1 & R1 & Hrun). inversion Hrun as [|? ? s2 ? ? Hstep Hrest]; subst.
+  destruct (panic_poisons_proof _ _ _ _ _ Hstep Hl) as (Hp & _ & _).
+  eapply poisoned_run; [| exact Hp | exact Hrest].
+  eapply inv3_step; [| exact Hstep]. eapply inv3_run; [exact inv3_init | exact R1].
 Qed.
 
 (* ------------------------------------------------------------------------------------------ *)
@@ -523,7 +614,7 @@ Definition poll_tr1 : list event :=
   [ ev (LAcqCache 1) RNone; ev (LAcqMark 1) RNone; ev (LCreStart 1) RNone; ev (LCreEnd 1 true) (mk_env 1 0); ev (LDrop 1) (mk_env 1 0);
     ev (LAcqCache 1) RNone; ev (LAcqCheck 1) RNone;          (* thread 1 is inside the freshness callback *)
     ev (LBlocked 0) RNone;                                     (* thread 0: request_reload, sleeps on the mutex *)
-    ev (LFreshEnd 1 false) (mk_env 1 0);                       (* "fresh": thread 1 gets the cached environment (concurrent: fine) *)
+    ev (LFreshEnd 1 CbFalse) (mk_env 1 0);                       (* "fresh": thread 1 gets the cached environment (concurrent: fine) *)
     ev (LReqSet 0) RNone; ev (LReqNotify 0 false) RReq;        (* now the request takes effect and returns *)
     ev (LDrop 1) (mk_env 1 0) ].
 Definition poll_tr2 : list event :=
@@ -545,12 +636,47 @@ Definition skip_trace : list event :=
   [ ev (LAcqCache 1) RNone; ev (LAcqMark 1) RNone; ev (LCreStart 1) RNone; ev (LCreEnd 1 true) (mk_env 1 0); ev (LDrop 1) (mk_env 1 0);
     ev (LAcqCache 1) RNone; ev (LAcqCheck 1) RNone;
     ev (LReqSet 0) RReq;                                       (* request_reload returned although the mutex was held *)
-    ev (LFreshEnd 1 false) (mk_env 1 0); ev (LDrop 1) (mk_env 1 0);
-    ev (LAcqCache 2) RNone; ev (LAcqCheck 2) RNone; ev (LFreshEnd 2 false) (mk_env 1 0) ].
+    ev (LFreshEnd 1 CbFalse) (mk_env 1 0); ev (LDrop 1) (mk_env 1 0);
+    ev (LAcqCache 2) RNone; ev (LAcqCheck 2) RNone; ev (LFreshEnd 2 CbFalse) (mk_env 1 0) ].
 
 Lemma nonblocking_request_rejected_proof :
   replay cfg_fresh init 0 skip_trace = inr (7, RNone) /\ no_lost_ok skip_trace = false /\
   (forall s, ~ run cfg_fresh init skip_trace s).
+Proof.
+  split; [vm_compute; reflexivity|]. split; [vm_compute; reflexivity|].
+  intros s H. apply (run_replay _ _ _ 0) in H. vm_compute in H. discriminate.
+Qed.
+
+(* acquire; request_reload; acquire whose creator PANICS (caught by the caller): the flag stays cleared and
+   generation 1 stays cached, but the cache mutex is poisoned: every later acquire_env panics as well -
+   nothing stale is handed out *)
+Definition panic_trace : list event :=
+  [ ev (LAcqCache 0) RNone; ev (LAcqMark 0) RNone; ev (LCreStart 0) RNone; ev (LCreEnd 0 true) (mk_env 1 0); ev (LDrop 0) (mk_env 1 0);
+    ev (LReqSet 0) RNone; ev (LReqNotify 0 false) RReq;
+    ev (LAcqCache 0) RNone; ev (LAcqCheck 0) RNone; ev (LAcqMark 0) RNone; ev (LAcqFast 0) RNone;
+    ev (LCreStart 0) RNone; ev (LCrePanic 0) RPanic;
+    ev (LAcqCache 0) RPanic; ev (LAcqCache 1) RPanic ].
+
+Lemma panicking_rebuild_proof :
+  exists s, run cfg_fixed init panic_trace s /\ flag s = false /\ reqs s = 1 /\
+            cached s = Some {| gen := 1; born := 0 |} /\ cpois s = true /\ spec_ok panic_trace = true.
+Proof.
+  destruct (replay cfg_fixed init 0 panic_trace) as [s|p] eqn:E; [|vm_compute in E; discriminate].
+  exists s. split; [eapply replay_run; exact E|]. vm_compute in E. inversion E; subst. vm_compute. auto 10.
+Qed.
+
+(* the same schedule on a reloader that recovers from the poisoned cache mutex (lock().unwrap_or_else(into_inner)):
+   event 13 is not a step of the model, and the trace violates no_lost_request - the request is lost *)
+Definition recover_trace : list event :=
+  [ ev (LAcqCache 0) RNone; ev (LAcqMark 0) RNone; ev (LCreStart 0) RNone; ev (LCreEnd 0 true) (mk_env 1 0); ev (LDrop 0) (mk_env 1 0);
+    ev (LReqSet 0) RNone; ev (LReqNotify 0 false) RReq;
+    ev (LAcqCache 0) RNone; ev (LAcqCheck 0) RNone; ev (LAcqMark 0) RNone; ev (LAcqFast 0) RNone;
+    ev (LCreStart 0) RNone; ev (LCrePanic 0) RPanic;
+    ev (LAcqCache 0) RNone; ev (LAcqCheck 0) (mk_env 1 0) ].
+
+Lemma poison_recovery_rejected_proof :
+  replay cfg_fixed init 0 recover_trace = inr (13, RPanic) /\ no_lost_ok recover_trace = false /\
+  (forall s, ~ run cfg_fixed init recover_trace s).
 Proof.
   split; [vm_compute; reflexivity|]. split; [vm_compute; reflexivity|].
   intros s H. apply (run_replay _ _ _ 0) in H. vm_compute in H. discriminate.
